@@ -124,35 +124,107 @@ def r153(ctx, core, cen):
            'max_defi = %s' % defs.get('max_defi'), core.loc(f))
 
 
-def _conds(f):
-    """the `if <cond>: return False` conditions of a predicate, in order"""
+def _conds(f, module=None):
+    """the `if <cond>: return False` conditions of a predicate, in order.  A shared front part moved into a helper
+    counts too: `v = helper(..)` directly followed by `if v is None: return False` contributes the helper's
+    `if <cond>: return None` conditions with the arguments written in for its parameters.  The single-assignment
+    temporary `ct = se.converted_type` is written out."""
+    import copy
     out = []
-    for st in f.body:
+
+    def text(t, bound=None, fn=None):
+        t = copy.deepcopy(t)
+
+        class _S(ast.NodeTransformer):
+            def visit_Name(self, n):
+                if bound and n.id in bound and isinstance(n.ctx, ast.Load):
+                    return copy.deepcopy(bound[n.id])
+                if n.id == 'ct' and isinstance(n.ctx, ast.Load):
+                    return ast.parse('se.converted_type', mode='eval').body
+                return n
+        return norm(_S().visit(t))
+    body = f.body
+    for i, st in enumerate(body):
         if isinstance(st, ast.If) and len(st.body) == 1 and isinstance(st.body[0], ast.Return) and norm(st.body[0].value) == 'False':
-            out.append(norm(st.test))
+            prev = body[i - 1] if i else None
+            m = None
+            if isinstance(st.test, ast.Compare) and len(st.test.ops) == 1 and isinstance(st.test.ops[0], ast.Is) and \
+                    isinstance(st.test.left, ast.Name) and norm(st.test.comparators[0]) == 'None' and isinstance(prev, ast.Assign) and \
+                    len(prev.targets) == 1 and norm(prev.targets[0]) == st.test.left.id and isinstance(prev.value, ast.Call) and \
+                    isinstance(prev.value.func, ast.Name) and module is not None and prev.value.func.id in module.funcs:
+                m = module.funcs[prev.value.func.id]
+            if m is None:
+                out.append(text(st.test))
+                continue
+            params = [a.arg for a in m.args.args]
+            bound = dict(zip(params, prev.value.args))
+            bound.update({k.arg: k.value for k in prev.value.keywords if k.arg})
+            for st2 in m.body:
+                if isinstance(st2, ast.If) and len(st2.body) == 1 and isinstance(st2.body[0], ast.Return) and \
+                        (st2.body[0].value is None or norm(st2.body[0].value) == 'None') and not st2.orelse:
+                    out.append(text(st2.test, bound))
     return out
 
 
 def r154(ctx, sch):
     lst, mp = sch.func('_is_list_like'), sch.func('_is_map_like')
-    want_l = ['len(column.meta_data.path_in_schema) < 3', 'ct != parquet_thrift.ConvertedType.LIST', "len(se['children']) > 1",
+    want_l = ['len(column.meta_data.path_in_schema) < 3', 'se.converted_type != parquet_thrift.ConvertedType.LIST', "len(se['children']) > 1",
               "len(se2['children']) > 1", 'se2.repetition_type != parquet_thrift.FieldRepetitionType.REPEATED',
               'se3.repetition_type == parquet_thrift.FieldRepetitionType.REPEATED']
-    want_m = ['len(column.meta_data.path_in_schema) < 3', 'ct != parquet_thrift.ConvertedType.MAP', "len(se['children']) > 1",
+    want_m = ['len(column.meta_data.path_in_schema) < 3', 'se.converted_type != parquet_thrift.ConvertedType.MAP', "len(se['children']) > 1",
               "len(se2['children']) != 2", 'se2.repetition_type != parquet_thrift.FieldRepetitionType.REPEATED',
               "set(se2['children']) != {'key', 'value'}", 'se3.repetition_type != parquet_thrift.FieldRepetitionType.REQUIRED',
               'se3.repetition_type == parquet_thrift.FieldRepetitionType.REPEATED']
     why = {0: 'outer group / repeated group / leaf: three path levels', 1: 'the outer group carries the annotation',
            2: 'the annotated group has exactly one child', 3: 'the repeated group has one element (LIST) / key and value (MAP)',
            4: 'the middle level is the repeated one'}
+    import copy
+    from .. import pathcond as pc
     for f, want, tag in ((lst, want_l, 'LIST'), (mp, want_m, 'MAP')):
-        got = _conds(f)
+        got = _conds(f, sch)
+        # the condition under which the predicate says no, as a formula over its elementary tests: whichever way the
+        # refusals are laid out (flat guard clauses, a front part in a helper, a sentinel tested afterwards), it must be
+        # exactly "one of the listed shape tests holds"
+        g = copy.deepcopy(f)
+
+        class _Ct(ast.NodeTransformer):
+            def visit_Name(self, n):
+                if n.id == 'ct' and isinstance(n.ctx, ast.Load):
+                    return ast.copy_location(ast.parse('se.converted_type', mode='eval').body, n)
+                return n
+        g = _Ct().visit(g)
+        r = pc.reach(g)
+        refuse = pc._or([r[id(x)] for x in ast.walk(g) if isinstance(x, ast.Return) and id(x) in r and x.value is not None and norm(x.value) == 'False'])
+        refuse = pc._strip(pc.none_sentinels(g, refuse, r))
+        wf = [pc._strip(pc.formula(ast.parse(w, mode='eval').body)) for w in want]
+        names = sorted(pc.atoms(refuse) | set().union(*[pc.atoms(x) for x in wf]))
+        flat_ok = all(w in got for w in want) and len(got) == len(want)
         for i, w in enumerate(want):
-            ctx.ob('R15.4', 'schema.%s:refuses-shape-%d:%s' % (f.name, i, w[:50]), w in got,
-                   '%s shape test `%s` (%s); present tests: %s' % (tag, w, why.get(i, 'leaf repetition / key requiredness'), got), sch.loc(f))
-        ctx.ob('R15.4', 'schema.%s:no-other-refusal' % f.name, len(got) == len(want), '%d refusal tests' % len(got), sch.loc(f))
+            if w in got:
+                ok = True
+            else:
+                # only this test holds -> the predicate must say no
+                ok = False
+                # (set the atoms so that wf[i] is true and every other listed test is false, if that is possible)
+                import itertools
+                for vals in itertools.product((False, True), repeat=len(names)) if len(names) <= 14 else ():
+                    e_ = dict(zip(names, vals))
+                    if pc._eval(wf[i], e_) and not any(pc._eval(o, e_) for j, o in enumerate(wf) if j != i):
+                        ok = pc._eval(refuse, e_)
+                        if not ok:
+                            break
+            ctx.ob('R15.4', 'schema.%s:refuses-shape-%d:%s' % (f.name, i, w[:50]), ok,
+                   '%s shape test `%s` (%s); present tests: %s; refusal condition: %s' % (
+                       tag, w, why.get(i, 'leaf repetition / key requiredness'), got, pc.dumps(refuse)[:300]), sch.loc(f))
+        other = len(got) == len(want) if flat_ok else (len(names) <= 14 and pc.implies(refuse, pc._or(wf)) is True)
+        ctx.ob('R15.4', 'schema.%s:no-other-refusal' % f.name, other, '%d refusal tests; refusal condition: %s' % (len(got), pc.dumps(refuse)[:300]), sch.loc(f))
         ctx.ob('R15.4', 'schema.%s:accepts-otherwise' % f.name, norm(f.body[-1]) == 'return True', '', sch.loc(f))
-        anc = [st for st in f.body if isinstance(st, ast.Assign) and norm(st.targets[0]) == 'se']
+        bodies = list(f.body)
+        for st in f.body:          # (a shared front part in a helper of this module is looked into)
+            if isinstance(st, ast.Assign) and isinstance(st.value, ast.Call) and isinstance(st.value.func, ast.Name) and st.value.func.id in sch.funcs \
+                    and st.value.func.id.startswith('_'):
+                bodies += list(sch.funcs[st.value.func.id].body)
+        anc = [st for b_ in bodies for st in ast.walk(b_) if isinstance(st, ast.Assign) and norm(st.targets[0]) == 'se']
         ctx.ob('R15.4', 'schema.%s:annotation-read-from-the-grandparent-of-the-leaf' % f.name,
                len(anc) == 1 and 'column.meta_data.path_in_schema[:-2]' in norm(anc[0].value), '', sch.loc(f))
 
